@@ -372,7 +372,7 @@ def run(chk):
             cls = "crash" if j["impl"].startswith("crash") else ("accepted" if j["impl"].startswith("ok") else "state-changed")
             key = "files:load:%s:%s:%s:%s" % (inf["kind"], inf["cls"], cls, short(l, 100))
         jl.add(l)
-        if len(chk.violations) < 25:
+        if len(chk.violations) < 10:
             chk.report(key, "%s: %s" % (short(l), j["what"]),
                        {"family": "files", "harness": "h_files", "lines": [l], "observed_impl": j["impl"][:2000], "model": j["model"][:2000]})
     n = 0
